@@ -126,6 +126,14 @@ struct Call {
     rv: u32,
     ptr: usize,
     ok: bool,
+    /// the task body the launcher was handed (the shared part of the ComputeTasks message it came in)
+    body: Vec<u8>,
+}
+
+/// the body the harness puts into the shared data of a task: its time limit and a per-task tag, so that one message
+/// carries several shared entries and every task can be recognised by what the launcher is handed
+fn body_of(task: u32, tl_ms: Option<u64>) -> Vec<u8> {
+    format!("{:?}/{}", tl_ms, task % 3).into_bytes()
 }
 
 struct RunCtl {
@@ -164,6 +172,7 @@ impl TaskLauncher for WLauncher {
             rv: ctx.resource_variant().as_num() as u32,
             ptr: ctx.allocation() as *const Allocation as usize,
             ok: !fail,
+            body: ctx.body().to_vec(),
         });
         if fail {
             return Err(tako::Error::GenericError("launch failed (harness)".to_string()));
@@ -335,6 +344,8 @@ pub struct W {
     cancelled: BTreeMap<u32, bool>, // task -> was in the backlog when the cancel was processed
     retracted: BTreeSet<u32>,
     fired: BTreeSet<u32>,
+    /// (task, instance) -> body the harness sent for it
+    expect_body: BTreeMap<(u32, u32), Vec<u8>>,
     pub contract_ok: bool,
     pub stopped: bool,
 }
@@ -416,6 +427,7 @@ impl W {
             cancelled: Default::default(),
             retracted: Default::default(),
             fired: Default::default(),
+            expect_body: Default::default(),
             contract_ok: true,
             stopped: false,
         }
@@ -513,15 +525,16 @@ impl W {
         let msg = match op {
             Op::Compute(es) => {
                 let mut shared: Vec<ComputeTaskSharedData> = vec![];
-                let mut shared_key: Vec<Option<u64>> = vec![];
+                let mut shared_key: Vec<(Option<u64>, u32)> = vec![];
                 let tasks = es
                     .iter()
                     .map(|e| {
-                        let idx = match shared_key.iter().position(|k| *k == e.tl_ms) {
+                        self.expect_body.insert((e.task, e.inst), body_of(e.task, e.tl_ms));
+                        let idx = match shared_key.iter().position(|k| *k == (e.tl_ms, e.task % 3)) {
                             Some(i) => i,
                             None => {
-                                shared_key.push(e.tl_ms);
-                                shared.push(ComputeTaskSharedData { time_limit: e.tl_ms.map(Duration::from_millis), body: Default::default() });
+                                shared_key.push((e.tl_ms, e.task % 3));
+                                shared.push(ComputeTaskSharedData { time_limit: e.tl_ms.map(Duration::from_millis), body: body_of(e.task, e.tl_ms).into() });
                                 shared.len() - 1
                             }
                         };
@@ -869,6 +882,16 @@ impl W {
             for i in 0..free.len() {
                 if free[i] + used[i] != self.total[i] {
                     mons.push(("c04.handover".into(), "not-conserved".into(), format!("resource {i}: free {} + held by running tasks {} != total {}", free[i], used[i], self.total[i])));
+                }
+            }
+        }
+        // c01.ran: every launch is handed the data of ITS task (body and, through it, the time limit it was sent with)
+        for c in &calls {
+            if let Some(b) = self.expect_body.get(&(c.task, c.inst)) {
+                if *b != c.body {
+                    mons.push(("c01.ran".into(), "launched-with-data-of-another-task".into(), format!(
+                        "task {} (instance {}) was launched with body `{}` but was sent with `{}`",
+                        c.task, c.inst, String::from_utf8_lossy(&c.body), String::from_utf8_lossy(b))));
                 }
             }
         }
